@@ -165,9 +165,9 @@ theorem C13_index_sound (l : Layout) (idx : List (Grid × String)) (h : l.postIn
 
 /-! ### bounding box -/
 
-/-- the invariant the `Grid` constructor asserts, plus non-degeneracy (both axes present) -/
+/-- the invariant the `Grid` constructor asserts: spacings are non-negative -/
 def GridOK (g : Grid) : Prop :=
-  (∀ s ∈ g.xSpacing, 0 ≤ s) ∧ (∀ s ∈ g.ySpacing, 0 ≤ s) ∧ g.xInit.isSome ∧ g.yInit.isSome
+  (∀ s ∈ g.xSpacing, 0 ≤ s) ∧ (∀ s ∈ g.ySpacing, 0 ≤ s)
 
 theorem mem_positions (g : Grid) (p : Rat × Rat) :
     p ∈ g.positions ↔ p.1 ∈ g.xPositions ∧ p.2 ∈ g.yPositions := by
@@ -177,14 +177,45 @@ theorem mem_positions (g : Grid) (p : Rat × Rat) :
   · rintro ⟨x', hx, y', hy, rfl, rfl⟩; exact ⟨hx, hy⟩
   · rintro ⟨hx, hy⟩; exact ⟨x, hx, y, hy, rfl, rfl⟩
 
+/-- a grid with a site has both axes -/
+theorem hasSites_of_mem (g : Grid) (p : Rat × Rat) (hp : p ∈ g.positions) :
+    ∃ x0 y0, g.xInit = some x0 ∧ g.yInit = some y0 := by
+  obtain ⟨hx, hy⟩ := (mem_positions _ _).1 hp
+  cases hxi : g.xInit with
+  | none => simp [Grid.xPositions, hxi, Grid.axisPositions] at hx
+  | some x0 =>
+    cases hyi : g.yInit with
+    | none => simp [Grid.yPositions, hyi, Grid.axisPositions] at hy
+    | some y0 => exact ⟨x0, y0, rfl, rfl⟩
+
+/-- in a grid with both axes, every x position and every y position is the coordinate of a site -/
+theorem site_of_x (g : Grid) (x0 y0 : Rat) (_hx0 : g.xInit = some x0) (hy0 : g.yInit = some y0)
+    (hs : ∀ s ∈ g.ySpacing, 0 ≤ s) (x : Rat) (hx : x ∈ g.xPositions) : ∃ p ∈ g.positions, p.1 = x :=
+  ⟨(x, y0), (mem_positions _ _).2 ⟨hx, by
+    simpa [Grid.yPositions, hy0] using (axisPositions_bounds g.ySpacing y0 hs).2.1⟩, rfl⟩
+
+theorem site_of_y (g : Grid) (x0 y0 : Rat) (hx0 : g.xInit = some x0) (_hy0 : g.yInit = some y0)
+    (hs : ∀ s ∈ g.xSpacing, 0 ≤ s) (y : Rat) (hy : y ∈ g.yPositions) : ∃ p ∈ g.positions, p.2 = y :=
+  ⟨(x0, y), (mem_positions _ _).2 ⟨by
+    simpa [Grid.xPositions, hx0] using (axisPositions_bounds g.xSpacing x0 hs).2.1, hy⟩, rfl⟩
+
+/-- membership in the list of zones the loop looks at -/
+theorem mem_sited (l : Layout) (g : Grid) :
+    g ∈ (l.zones.map (·.2)).filter hasSites ↔
+      (∃ z ∈ l.zones, z.2 = g) ∧ ∃ x0 y0, g.xInit = some x0 ∧ g.yInit = some y0 := by
+  simp only [List.mem_filter, List.mem_map, hasSites, Bool.and_eq_true, Option.isSome_iff_exists]
+  constructor
+  · rintro ⟨⟨z, hz, rfl⟩, ⟨x0, hx⟩, ⟨y0, hy⟩⟩; exact ⟨⟨z, hz, rfl⟩, x0, y0, hx, hy⟩
+  · rintro ⟨⟨z, hz, rfl⟩, x0, y0, hx, hy⟩; exact ⟨⟨z, hz, rfl⟩, ⟨x0, hx⟩, ⟨y0, hy⟩⟩
+
 /-- **The bounding box is the tight box around all sites**: every site of every zone
-(static or special) lies inside, and each of the four bounds is attained by a site
-coordinate of some zone. -/
+(static or special) lies inside, and each of the four bounds is attained by the coordinate
+of a site of some zone.  Zones with an empty axis have no sites and do not contribute. -/
 theorem C13_bbox_tight (l : Layout) (a b c d : Rat) (h : l.boundingBox = some (a, b, c, d))
     (hz : ∀ z ∈ l.zones, GridOK z.2) :
     (∀ z ∈ l.zones, ∀ p ∈ z.2.positions, a ≤ p.1 ∧ p.1 ≤ b ∧ c ≤ p.2 ∧ p.2 ≤ d) ∧
-    (∃ z ∈ l.zones, a ∈ z.2.xPositions) ∧ (∃ z ∈ l.zones, b ∈ z.2.xPositions) ∧
-    (∃ z ∈ l.zones, c ∈ z.2.yPositions) ∧ (∃ z ∈ l.zones, d ∈ z.2.yPositions) := by
+    (∃ z ∈ l.zones, ∃ p ∈ z.2.positions, p.1 = a) ∧ (∃ z ∈ l.zones, ∃ p ∈ z.2.positions, p.1 = b) ∧
+    (∃ z ∈ l.zones, ∃ p ∈ z.2.positions, p.2 = c) ∧ (∃ z ∈ l.zones, ∃ p ∈ z.2.positions, p.2 = d) := by
   unfold boundingBox at h
   dsimp only at h
   split at h
@@ -199,49 +230,57 @@ theorem C13_bbox_tight (l : Layout) (a b c d : Rat) (h : l.boundingBox = some (a
   refine ⟨?_, ?_, ?_, ?_, ?_⟩
   · intro z hzm p hp
     obtain ⟨hx, hy⟩ := (mem_positions _ _).1 hp
-    obtain ⟨sx, sy, ix, iy⟩ := hz z hzm
-    obtain ⟨x0, hx0⟩ := Option.isSome_iff_exists.1 ix
-    obtain ⟨y0, hy0⟩ := Option.isSome_iff_exists.1 iy
+    obtain ⟨sx, sy⟩ := hz z hzm
+    obtain ⟨x0, y0, hx0, hy0⟩ := hasSites_of_mem _ _ hp
+    have hmem : z.2 ∈ (l.zones.map (·.2)).filter hasSites :=
+      (mem_sited l z.2).2 ⟨⟨z, hzm, rfl⟩, x0, y0, hx0, hy0⟩
     have bx := (axisPositions_bounds z.2.xSpacing x0 sx).1 p.1 (by simpa [Grid.xPositions, hx0] using hx)
     have by_ := (axisPositions_bounds z.2.ySpacing y0 sy).1 p.2 (by simpa [Grid.yPositions, hy0] using hy)
     have m1 : a' ≤ x0 := ha x0 (by
-      simp only [List.mem_filterMap, List.mem_map]; exact ⟨z.2, ⟨z, hzm, rfl⟩, hx0⟩)
+      simp only [List.mem_filterMap]; exact ⟨z.2, hmem, hx0⟩)
     have m2 : x0 + z.2.width ≤ b' := hb _ (by
-      simp only [List.mem_filterMap, List.mem_map]; exact ⟨z.2, ⟨z, hzm, rfl⟩, by simp [hx0]⟩)
+      simp only [List.mem_filterMap]; exact ⟨z.2, hmem, by simp [hx0]⟩)
     have m3 : c' ≤ y0 := hc y0 (by
-      simp only [List.mem_filterMap, List.mem_map]; exact ⟨z.2, ⟨z, hzm, rfl⟩, hy0⟩)
+      simp only [List.mem_filterMap]; exact ⟨z.2, hmem, hy0⟩)
     have m4 : y0 + z.2.height ≤ d' := hd _ (by
-      simp only [List.mem_filterMap, List.mem_map]; exact ⟨z.2, ⟨z, hzm, rfl⟩, by simp [hy0]⟩)
+      simp only [List.mem_filterMap]; exact ⟨z.2, hmem, by simp [hy0]⟩)
     simp only [Grid.width, Grid.height] at m2 m4
     grind
-  · simp only [List.mem_filterMap, List.mem_map] at ha'
-    obtain ⟨g, ⟨z, hzm, rfl⟩, hx0⟩ := ha'
-    obtain ⟨sx, _, _, _⟩ := hz z hzm
-    exact ⟨z, hzm, by simpa [Grid.xPositions, hx0] using (axisPositions_bounds z.2.xSpacing a' sx).2.1⟩
-  · simp only [List.mem_filterMap, List.mem_map] at hb'
-    obtain ⟨g, ⟨z, hzm, rfl⟩, hx0⟩ := hb'
-    obtain ⟨sx, _, _, _⟩ := hz z hzm
-    cases hxi : z.2.xInit with
-    | none => simp [hxi] at hx0
-    | some x0 =>
-      simp [hxi] at hx0
-      refine ⟨z, hzm, ?_⟩
-      rw [← hx0]
-      simpa [Grid.xPositions, hxi, Grid.width] using (axisPositions_bounds z.2.xSpacing x0 sx).2.2
-  · simp only [List.mem_filterMap, List.mem_map] at hc'
-    obtain ⟨g, ⟨z, hzm, rfl⟩, hy0⟩ := hc'
-    obtain ⟨_, sy, _, _⟩ := hz z hzm
-    exact ⟨z, hzm, by simpa [Grid.yPositions, hy0] using (axisPositions_bounds z.2.ySpacing c' sy).2.1⟩
-  · simp only [List.mem_filterMap, List.mem_map] at hd'
-    obtain ⟨g, ⟨z, hzm, rfl⟩, hy0⟩ := hd'
-    obtain ⟨_, sy, _, _⟩ := hz z hzm
-    cases hyi : z.2.yInit with
-    | none => simp [hyi] at hy0
-    | some y0 =>
-      simp [hyi] at hy0
-      refine ⟨z, hzm, ?_⟩
-      rw [← hy0]
-      simpa [Grid.yPositions, hyi, Grid.height] using (axisPositions_bounds z.2.ySpacing y0 sy).2.2
+  · simp only [List.mem_filterMap] at ha'
+    obtain ⟨g, hg, hx0⟩ := ha'
+    obtain ⟨⟨z, hzm, rfl⟩, x0, y0, hx0', hy0⟩ := (mem_sited l g).1 hg
+    obtain ⟨sx, sy⟩ := hz z hzm
+    exact ⟨z, hzm, site_of_x z.2 a' y0 hx0 hy0 sy a' (by
+      simpa [Grid.xPositions, hx0] using (axisPositions_bounds z.2.xSpacing a' sx).2.1)⟩
+  · simp only [List.mem_filterMap] at hb'
+    obtain ⟨g, hg, hxb⟩ := hb'
+    obtain ⟨⟨z, hzm, rfl⟩, x0, y0, hx0, hy0⟩ := (mem_sited l g).1 hg
+    obtain ⟨sx, sy⟩ := hz z hzm
+    simp [hx0] at hxb
+    refine ⟨z, hzm, site_of_x z.2 x0 y0 hx0 hy0 sy b' ?_⟩
+    rw [← hxb]
+    simpa [Grid.xPositions, hx0, Grid.width] using (axisPositions_bounds z.2.xSpacing x0 sx).2.2
+  · simp only [List.mem_filterMap] at hc'
+    obtain ⟨g, hg, hy0⟩ := hc'
+    obtain ⟨⟨z, hzm, rfl⟩, x0, y0, hx0, hy0'⟩ := (mem_sited l g).1 hg
+    obtain ⟨sx, sy⟩ := hz z hzm
+    exact ⟨z, hzm, site_of_y z.2 x0 c' hx0 hy0 sx c' (by
+      simpa [Grid.yPositions, hy0] using (axisPositions_bounds z.2.ySpacing c' sy).2.1)⟩
+  · simp only [List.mem_filterMap] at hd'
+    obtain ⟨g, hg, hyd⟩ := hd'
+    obtain ⟨⟨z, hzm, rfl⟩, x0, y0, hx0, hy0⟩ := (mem_sited l g).1 hg
+    obtain ⟨sx, sy⟩ := hz z hzm
+    simp [hy0] at hyd
+    refine ⟨z, hzm, site_of_y z.2 x0 y0 hx0 hy0 sx d' ?_⟩
+    rw [← hyd]
+    simpa [Grid.yPositions, hy0, Grid.height] using (axisPositions_bounds z.2.ySpacing y0 sy).2.2
+
+/-- non-vacuity of the box: a zone with an empty axis does not widen it -/
+example :
+    let g1 : Grid := ⟨[], [3/2, 9/2], some (-4), some 3⟩
+    let g2 : Grid := ⟨[1], [], some 3, none⟩
+    let l : Layout := ⟨[("a", g1)], [], [], [], [("c", g2)]⟩
+    l.boundingBox = some (-4, -4, 3, 9) := by decide +kernel
 
 /-- non-vacuity: a two-zone layout is accepted and indexed; an alias is rejected -/
 example :
